@@ -24,6 +24,9 @@ pub struct World {
 
 impl World {
     pub fn dur(&self, ms: Ms) -> Duration {
+        if ms == MS_MAX {
+            return Duration::MAX;
+        }
         Duration::from_micros(ms as u64 * self.us_per_ms)
     }
     pub fn peer(&self, i: usize) -> Option<ActorRef<SimActor>> {
@@ -151,6 +154,24 @@ fn rep(r: rsactor::Result<Rep>, id: rsactor::Identity) -> Res {
     }
 }
 
+/// create the call's future now, let other tasks run, then poll it for the first time (or drop it
+/// unpolled): futures are lazy, so nothing may happen before the first poll
+macro_rules! lazy_call {
+    ($fut:expr, $yields:expr, $drop:expr, $map:expr) => {{
+        let fut = $fut;
+        for _ in 0..$yields {
+            tokio::task::yield_now().await;
+        }
+        if $drop {
+            drop(fut);
+            Res::Abandoned
+        } else {
+            $map(fut.await)
+        }
+    }};
+}
+pub(crate) use lazy_call;
+
 /// Perform one message operation through a plain ActorRef (async variants only).
 pub async fn send_direct(r: &ActorRef<SimActor>, how: How, msg: Msg, world: &World) -> Res {
     let id = r.identity();
@@ -179,6 +200,15 @@ pub async fn send_direct(r: &ActorRef<SimActor>, how: How, msg: Msg, world: &Wor
         },
         (How::AskJoin, Ty::A) => rep(r.ask(MsgA(msg)).await, id),
         (How::AskJoin, Ty::B) => rep(r.ask(MsgB(msg)).await, id),
+        (How::TellL { yields, drop }, Ty::A) => lazy_call!(r.tell(MsgA(msg)), yields, drop, |x| unit(x, id)),
+        (How::TellL { yields, drop }, Ty::B) => lazy_call!(r.tell(MsgB(msg)), yields, drop, |x| unit(x, id)),
+        (How::TellL { yields, drop }, Ty::Job) => lazy_call!(r.tell(JobMsg(msg)), yields, drop, |x| unit(x, id)),
+        (How::AskL { yields, drop }, Ty::A) => lazy_call!(r.ask(MsgA(msg)), yields, drop, |x| rep(x, id)),
+        (How::AskL { yields, drop }, Ty::B) => lazy_call!(r.ask(MsgB(msg)), yields, drop, |x| rep(x, id)),
+        (How::AskL { yields, drop }, Ty::Job) => lazy_call!(r.ask(JobMsg(msg)), yields, drop, |x: rsactor::Result<tokio::task::JoinHandle<u64>>| match x {
+            Ok(_) => Res::Ok,
+            Err(e) => map_err(&e, id),
+        }),
         (How::AskTL(t, late), ty) => {
             // a busy caller: first poll, then nothing for `late`, then await
             let mut fut: Pin<Box<dyn Future<Output = Res> + Send + '_>> = match ty {
@@ -258,6 +288,36 @@ pub fn send_blocking(r: &ActorRef<SimActor>, how: How, msg: Msg, world: &World) 
     }
 }
 
+/// One send from a hook of actor `owner` to a peer (shared by sequential and concurrent steps).
+/// Returns the panic payload if the call panicked (the caller re-raises it).
+async fn peer_send(world: &Arc<World>, owner: usize, hook: HookId, to: usize, how: How, msg: &Msg, erased: bool) -> Option<Box<dyn std::any::Any + Send>> {
+    let op = world.rec.new_op();
+    world.rec.rec(K::OpBegin { op, src: Src::Actor(owner), hook: Some(hook), a: to, kind: OpKind::Send { how, mid: msg.id, ty: msg.ty }, slot: 0, via: 0 });
+    let peer = world.peer(to).map(|r| Tracked::new(r, to, &world.rec));
+    let res = match &peer {
+        None => Ok(Res::Skipped),
+        Some(r) => {
+            if erased {
+                let b = crate::client::Strong::Erased(crate::client::Bundle::from_ref(&r.inner, msg.id % 2 == 0));
+                AssertUnwindSafe(b.send(how, msg.clone(), (msg.id % 251) as u8, world)).catch_unwind().await
+            } else {
+                AssertUnwindSafe(send_direct(&r.inner, how, msg.clone(), world)).catch_unwind().await
+            }
+        }
+    };
+    drop(peer);
+    match res {
+        Ok(res) => {
+            world.rec.rec(K::OpEnd { op, res });
+            None
+        }
+        Err(p) => {
+            world.rec.rec(K::OpEnd { op, res: Res::Panicked(panic_message(&*p)) });
+            Some(p)
+        }
+    }
+}
+
 impl SimActor {
     fn rec(&self) -> &Recorder {
         &self.world.rec
@@ -287,40 +347,27 @@ impl SimActor {
             }
             Step::Spin(us) => std::thread::sleep(Duration::from_micros(*us as u64)),
             Step::Send { to, how, msg, erased } => {
-                let op = world.rec.new_op();
-                world.rec.rec(K::OpBegin {
-                    op,
-                    src: Src::Actor(self.idx),
-                    hook: Some(hook),
-                    a: *to,
-                    kind: OpKind::Send { how: *how, mid: msg.id, ty: msg.ty },
-                    slot: 0,
-                    via: 0,
-                });
-                let peer = world.peer(*to).map(|r| Tracked::new(r, *to, &world.rec));
-                let res = match &peer {
-                    None => Ok(Res::Skipped),
-                    Some(r) => {
-                        if *erased {
-                            let b = crate::client::Strong::Erased(crate::client::Bundle::from_ref(&r.inner, msg.id % 2 == 0));
-                            AssertUnwindSafe(b.send(*how, (**msg).clone(), (msg.id % 251) as u8, &world)).catch_unwind().await
-                        } else {
-                            AssertUnwindSafe(send_direct(&r.inner, *how, (**msg).clone(), &world))
-                                .catch_unwind()
-                                .await
-                        }
-                    }
-                };
-                drop(peer);
-                match res {
-                    Ok(res) => {
-                        world.rec.rec(K::OpEnd { op, res });
-                    }
-                    Err(p) => {
-                        world.rec.rec(K::OpEnd { op, res: Res::Panicked(panic_message(&*p)) });
-                        std::panic::resume_unwind(p);
-                    }
+                if let Some(p) = peer_send(&world, self.idx, hook, *to, *how, msg, *erased).await {
+                    std::panic::resume_unwind(p);
                 }
+            }
+            Step::Par(inner) => {
+                // all sends are in flight at once; a panic of one unwinds while the others' futures
+                // are still alive (they are dropped by the unwinding)
+                let owner = self.idx;
+                let futs: Vec<_> = inner
+                    .iter()
+                    .filter_map(|s| if let Step::Send { to, how, msg, erased } = s { Some((to, how, msg, erased)) } else { None })
+                    .map(|(to, how, msg, erased)| {
+                        let w = world.clone();
+                        async move {
+                            if let Some(p) = peer_send(&w, owner, hook, *to, *how, msg, *erased).await {
+                                std::panic::resume_unwind(p);
+                            }
+                        }
+                    })
+                    .collect();
+                futures::future::join_all(futs).await;
             }
             Step::KillSelf => {
                 let op = world.rec.new_op();
